@@ -396,6 +396,7 @@ func (fr *Frame) loopHeader(b *ssa.BasicBlock, li *loopInfo, phiEntry map[*ssa.P
 			ns = append(ns, n)
 		}
 		sort.Strings(ns)
+		allocAtHead := x.heapGet(entryHeap, allocName, "Int")
 		fr.cur = fr.cur.clone()
 		for _, n := range ns {
 			srt := fr.cur.sorts[n]
@@ -407,6 +408,15 @@ func (fr *Frame) loopHeader(b *ssa.BasicBlock, li *loopInfo, phiEntry map[*ssa.P
 				// only loop-invariant cells are written: havoc exactly those
 				cs := srt[len("(Array Int ") : len(srt)-1]
 				nv := old
+				if fr.freshRoots {
+					// besides the listed cells only cells allocated after the loop head change
+					nv = x.em.Fresh(n+".loop", srt)
+					guard := []string{sLe("r!fr", allocAtHead)}
+					for _, c := range cells {
+						guard = append(guard, sNot(sEq("r!fr", c)))
+					}
+					x.em.Assert("(forall ((r!fr Int)) (! (=> " + sAnd(guard...) + " (= (select " + nv + " r!fr) (select " + old + " r!fr))) :pattern ((select " + nv + " r!fr))))")
+				}
 				for _, c := range cells {
 					row := x.em.Fresh(n+".cell", cs)
 					nv = sStore(nv, c, row)
@@ -515,8 +525,12 @@ func (fr *Frame) stableCells(h *ssa.BasicBlock, li *loopInfo, n string) []string
 		return nil
 	}
 	seen := map[string]bool{}
-	var out []string
+	out := []string{}
+	fr.freshRoots = false
 	for _, r := range roots {
+		if os.Getenv("GOVC_ROOTS") != "" {
+			fmt.Fprintf(os.Stderr, "loop b%d heap %s root %T %v\n", h.Index, n, r, r)
+		}
 		if r == nil {
 			return nil
 		}
@@ -527,6 +541,13 @@ func (fr *Frame) stableCells(h *ssa.BasicBlock, li *loopInfo, n string) []string
 				return nil
 			}
 			if li.body[in.Block()] {
+				// memory allocated inside the loop body did not exist at the loop head: stores
+				// into it leave every cell allocated before the loop alone
+				switch in.(type) {
+				case *ssa.Alloc, *ssa.MakeSlice, *ssa.MakeMap:
+					fr.freshRoots = true
+					continue
+				}
 				// a load inside the loop from a field that the loop does not modify, through a
 				// pointer defined outside the loop, yields the same value in every iteration
 				v = fr.invariantLoad(h, li, r)
@@ -673,6 +694,9 @@ func (fr *Frame) instr(in ssa.Instruction) {
 	case *ssa.Alloc:
 		el := i.Type().(*types.Pointer).Elem()
 		ref := fr.freshRef(i.Comment)
+		// (the zero-initialisation below writes through the allocation itself)
+		fr.storeRoot = i
+		defer func() { fr.storeRoot = nil }()
 		if a, ok := el.Underlying().(*types.Array); ok && !isLeaf(a.Elem()) {
 			// array of structs: a backing array in the HA family, zero-initialised per leaf
 			for _, eh := range elemHeaps(a.Elem()) {
@@ -752,9 +776,13 @@ func (fr *Frame) instr(in ssa.Instruction) {
 		fr.writeLoc(loc, fr.val(i.Val))
 		fr.storeRoot = nil
 	case *ssa.MakeSlice:
+		fr.storeRoot = i
 		fr.makeSlice(i)
+		fr.storeRoot = nil
 	case *ssa.MakeMap:
+		fr.storeRoot = i
 		fr.makeMap(i)
+		fr.storeRoot = nil
 	case *ssa.MapUpdate:
 		fr.storeRoot = i.Map
 		fr.mapUpdate(fr.val(i.Map), fr.val(i.Key), fr.val(i.Value))
